@@ -65,9 +65,12 @@ class Report:
 
     def violation(self, key, what, replay=None, nfi=False):
         """key: obligation name or bounded-case signature.  replay: JSON-able object written to a replay file."""
+        import re as _re
         for k in self.known:
-            if k['key'] == key or (k.get('key_prefix') and key.startswith(k['key_prefix'])):
-                self.known_hit.append({'key': key, 'what': k.get('what', what)})
+            if k.get('key') == key or (k.get('key_prefix') and key.startswith(k['key_prefix'])) or \
+                    (k.get('key_regex') and _re.match(k['key_regex'], key)):
+                if not any(h['what'] == k.get('what', what) for h in self.known_hit):
+                    self.known_hit.append({'key': key, 'what': k.get('what', what)})
                 return
         path = None
         if replay is not None or nfi:
